@@ -412,7 +412,7 @@ func c16Run(t *testing.T, r *verifsim.Run) {
 			doSend(p, burst)
 		case "tick":
 			p := tp.Choose("tick-peer", nPeers)
-			n := 1 // single ticks only: overlapping Tick calls of one backoff strategy are C17's subject (its counter race would make the published set scheduler-dependent)
+			n := 1 + tp.Choose("tick-burst", 3)
 			for i := 0; i < n; i++ {
 				peers[p].ticks <- uint64(step)
 			}
